@@ -229,6 +229,10 @@ def layered(inp):
     method = lopts.pop('method')
     lopts['return_imat'] = True
 
+    # The gradient is needed for each layer of the model.
+    if gradient:
+        lopts['merge'] = False
+
     # Source coordinates and strength for empymod. Dipoles defined by two
     # points are given as (x1, x2, y1, y2, z1, z2); dipoles defined by a point
     # and a length are point dipoles for empymod: take length into account.
